@@ -37,7 +37,7 @@ CHECKS = {
             TB + "; lib/e8.py oracle and generator; every syntactic path feasible", "DESIGN.md §5 C08", "E4"),
     "C06": ("translation_validation",
             "real check() verdict per core-fragment program (concrete) vs. a dynamic path oracle run by CrossHair/z3 over symbolic branch-decision vectors: no faulting path for accepted programs, a solver-produced faulting path for each rejected one",
-            "Restricted: the solver ranges over control-flow paths (decision vectors of up to 10 opaque conditions), the real linearity checker runs concretely on each program of a generated corpus (60 quick / 1200 thorough + 28 fixed; "
+            "Restricted: the solver ranges over control-flow paths (decision vectors of up to 10 opaque conditions), the real linearity checker runs concretely on each program of a generated corpus (60 quick / 1200 thorough + 37 fixed; "
             "allocation, borrow/consume calls, moves, swap, tuples, struct fields, if/while/break/continue/return, 7 signatures). Soundness: accepted => no decision vector makes the oracle report use-after-move, leak, "
             "overwrite of a live value, a borrowed parameter not handed back or moved. Completeness: rejected with a linearity error => the solver exhibits such a vector (replayed natively).",
             TB + "; lib/e6.py oracle = executable statement of the path condition and ownership rules; generator", "DESIGN.md §5 C06", "E4"),
